@@ -1023,12 +1023,13 @@ func (m *Machine) RunJob(job Job) (res JobResult) {
 	x.Funcs = map[string]bool{}
 	x.Candidates, x.Samples, x.Unwinds, x.Errors = nil, nil, nil, nil
 	x.Work = [][]int64{job.Prefix}
-	if x.Z != nil && (x.EIMode != lastEI) {
+	if x.Z != nil && (x.EIMode != lastEI || job.Harness != lastHarness) {
 		x.Z.stop()
 		x.Z = nil
 		resetTerms()
 	}
 	lastEI = x.EIMode
+	lastHarness = job.Harness
 	t0 := time.Now()
 	res.Harness = job.Harness
 	modelSamples := 0
@@ -1087,6 +1088,7 @@ func (m *Machine) RunJob(job Job) (res JobResult) {
 }
 
 var lastEI bool
+var lastHarness string
 
 // RunConcrete executes the harness once with fixed inputs / choices and
 // returns what it observed (assert failures, panics, vObserve lines).
